@@ -199,6 +199,40 @@ func dedupDelta(ds []delta) []delta {
 	return out
 }
 
+// c08ExactPairLookup (R9): ConvertCoin escrows the coin of the message and mints the ERC-20 of the pair found for that
+// coin's denom; nothing re-checks coin.Denom == pair.Denom, the exact lookup is what guarantees it. A getter that maps a
+// denom to a pair through the by-denom index must therefore not also consult the alias index (round-7 seed C08).
+func (e *Engine) c08ExactPairLookup(r *Report) {
+	n := 0
+	for _, fn := range e.Funcs {
+		if fn.Parent() != nil || !strings.HasSuffix(fnPkgPath(fn), "/x/erc20/keeper") {
+			continue
+		}
+		res := fn.Signature.Results()
+		retPair := false
+		for i := 0; i < res.Len(); i++ {
+			if strings.HasSuffix(namedTypeName(res.At(i).Type()), "erc20/types.TokenPair") {
+				retPair = true
+			}
+		}
+		hasStr := false
+		for _, p := range fn.Params {
+			if b, ok := p.Type().Underlying().(*types.Basic); ok && b.Kind() == types.String {
+				hasStr = true
+			}
+		}
+		if !retPair || !hasStr || !e.HasTransEffect(fn, "erc20", "03", "get") {
+			continue
+		}
+		n++
+		alias := e.HasTransEffect(fn, "erc20", "05", "get") || e.HasTransEffect(fn, "erc20", "05", "has")
+		r.Check(!alias, "R9", e.FnKey(fn)+" exact", e.Pos(fn.Pos()), "resolves the denom through the by-denom index only", "the pair getter also consults the alias index (0x05): an alias / bridge denomination resolves to its base denom's pair, and ConvertCoin then escrows the alias coin while minting the base pair's ERC-20 — supply grows without the escrow of the pair's denom")
+	}
+	if n == 0 {
+		r.Fail("R9", "pair getters", "", "UNRESOLVED-ANCHOR: no getter mapping a denom to a token pair through 0x03")
+	}
+}
+
 func runC08(e *Engine, r *Report, tier string) {
 	r.Explanation = "C08, structural necessary conditions. R1 (signed-operation balance): for every conversion routine — an fx-core function that, with its fx-core callees inlined, performs both a bank value operation and an ERC-20 value operation — on every success path the change of the coin escrow (erc20 module account and the wrapper contract) equals the change of the ERC-20 supply, and the change of the module's ERC-20 escrow equals the change of the coin supply (operations: account->escrow +1, escrow->account -1, mint coins +escrow +supply, burn coins -escrow -supply, token mint/burn, token transfer to/from the module); every operation's amount is rooted in the routine's single amount parameter; coins are taken only from the sender parameter and paid only to the receiver parameter; R2 no keeper-level EVM execution (a fresh committed StateDB) is reachable from the native-action closure of a precompile — token calls under a live EVM must go through the running EVM; R3 the pair record and its by-denom / by-contract indexes (erc20 0x01,0x02,0x03) are written and deleted only together, a lone write of 0x01 only re-stores a pair that was just read; R4 the blocked-address test of a conversion is applied to the message's receiver; R5 every classifier of the IBC-voucher namespace (HasPrefix/TrimPrefix with a constant starting with `ibc`) tests the full prefix `ibc/` — siblings that decide lock-vs-burn and the backing escrow must agree on what a voucher is; R6 an index entry (by-contract, by-denom, alias) that is deleted because a lookup found it is deleted under the very key that was looked up; R7 the error of every bank / ERC-20 value operation of a conversion routine is consumed (tested with a clean failing branch, returned or wrapped) on every path from the call — an error that a later assignment overwrites before the test is reported. R8 wherever the result of an ERC-20 `transfer` / `transferFrom` call is decoded, every success return is guarded by the decoded boolean being true (in the decoding function, or in each caller when the boolean is handed up) — EIP-20 lets a token report failure by returning false. Not decided: contract bytecode, ERC-20 balances summing to supply, arbitrary histories."
 	r.Rule("R1", "per success path: Δescrow = ΔtokenSupply and ΔtokenEscrow = ΔcoinSupply; single amount; sender debited, receiver credited", 5, "conversion routines found by their operations")
@@ -206,8 +240,10 @@ func runC08(e *Engine, r *Report, tier string) {
 	r.Rule("R3", "token-pair record and indexes co-written", 3, "writers of erc20:01/02/03")
 	r.Rule("R4", "blocked-address test applies to the receiver", 2, "conversion handlers")
 	r.Rule("R6", "an index entry deleted because a lookup found it is deleted under the key that was looked up", 1, "lookup-guarded deletes of erc20 index families")
+	r.Rule("R9", "a token pair looked up by denom is the pair registered under that very denom: the lookup does not fall back to the alias index (conversion escrows the message's coin against the pair it finds)", 1, "pair getters taking a denom")
 	r.Rule("R8", "an ERC-20 transfer / transferFrom that returns false is an error: the decoded boolean guards every success return (here or in the caller it is handed to)", 2, "decoders of transfer / transferFrom results")
 	r.Rule("R7", "the error of every leg (bank / ERC-20 value operation) of a conversion routine is propagated on every path", 8, "value operations of the conversion routines")
+	e.c08ExactPairLookup(r)
 	{
 		nsites := 0
 		for _, fn := range e.Funcs {
